@@ -2023,3 +2023,60 @@ M("C13", "iterable-walked-twice", JCFG,
   '''            priority_key_path = tuple(key_path)
             for key in key_path:''', "R13.9",
   "the parameter itself is traversed a second time (seed C13-g shape)")
+
+# ============================================================ wave h (R7.12 / R5.14: loop boundary evidence)
+for _P, _R in (("C07", "R7.12"), ("C05", "R5.14")):
+    M(_P, "dummy-start-loses-counts", SGL,
+      "                start_event.update_event_sets(event_set.to_list())",
+      "                start_event.update_event_sets(list(event_set.to_frozenset()))",
+      _R, "a start event that is entered twice in parallel is mirrored once")
+    M(_P, "dummy-start-exact-match-only", SGL,
+      "            if event_set.to_frozenset().issubset(start_event_types):",
+      "            if event_set.to_frozenset() == start_event_types:",
+      _R, "only the successor set that names every start event is mirrored: "
+      "a body entered through one of two start events loses that branch")
+    M(_P, "dummy-end-no-fallback", SGL,
+      "            end_event.update_in_event_sets([end_event_node.event_type])",
+      "            pass", _R,
+      "an end event without an outside successor leaves no evidence on the "
+      "dummy end")
+    M(_P, "dummy-end-wrong-direction", SGL,
+      "                for event_set in out_node.in_event_sets:",
+      "                for event_set in out_node.event_sets:", _R,
+      "dummy end mirrors the successor sets of the exit nodes")
+    M(_P, "dummy-end-first-exit-only", SGL,
+      "            for out_node in exit_event_nodes:\n"
+      "                for event_set in out_node.in_event_sets:",
+      "            for out_node in list(exit_event_nodes)[:1]:\n"
+      "                for event_set in out_node.in_event_sets:", _R,
+      "only one outside successor is mirrored")
+    M(_P, "end-fanout-ignored", SGL,
+      "        if event_lists:\n            for event_list in",
+      "        if event_lists and len(event_lists) == 1:\n            for event_list in",
+      _R, "recorded exit fan-out dropped when there are several sets")
+    M(_P, "start-not-recorded-as-predecessor", SGL,
+      "        loop_start_event.update_in_event_sets([DUMMY_START_EVENT])\n",
+      "", _R, "loop start events do not learn about the dummy start")
+    M(_P, "end-edge-reversed", SGL,
+      "        graph.add_edge(loop_end_event, end_event)",
+      "        graph.add_edge(end_event, loop_end_event)", _R,
+      "edge dummy end -> loop end")
+    T(_P, "twin-boundary-comprehension", SGL,
+      "    for in_node in in_nodes:\n"
+      "        for event_set in in_node.event_sets:\n"
+      "            if event_set.to_frozenset().issubset(start_event_types):\n"
+      "                start_event.update_event_sets(event_set.to_list())",
+      "    mirrored = [\n"
+      "        es for n in in_nodes for es in n.event_sets\n"
+      "        if frozenset(es.to_list()) <= start_event_types\n"
+      "    ]\n"
+      "    for es in mirrored:\n"
+      "        start_event.update_event_sets(es.to_list())",
+      "same sets selected through a comprehension and <=")
+    T(_P, "twin-end-mapping-or", SGL,
+      "    if end_event_to_event_lists is None:\n"
+      "        end_event_to_event_lists_used: dict[Event, list[list[str]]] = {}\n"
+      "    else:\n"
+      "        end_event_to_event_lists_used = end_event_to_event_lists\n",
+      "    end_event_to_event_lists_used = end_event_to_event_lists or {}\n",
+      "`or {}` instead of the None test")
